@@ -21,7 +21,7 @@ RULE = (
 ASSUMPTIONS = ["rows are matched to the full chain by exact equality (chains of continuous draws have distinct rows)"]
 TIMEOUT = {"quick": 300, "thorough": 1800}
 REQUIRED = {"post:get_sample": 400, "post:get_interval": 300, "cases:zero_retained": 20, "cases:one_retained": 20,
-            "cases:interval_with_count": 100, "cases:after_replace_last": 20, "post:get_marginal": 40}
+            "cases:interval_with_count": 100, "cases:after_replace_last": 20, "post:get_marginal": 40, "cases:read_out_after_interruption": 15}
 
 
 def jobs(tier, seed):
@@ -142,6 +142,7 @@ def run_job(job, rec):
         if rng.random() < 0.2:
             target = mc.TerraceTarget(np.zeros(d), radius=float(rng.uniform(0.3, 1.0)), step=0.5)   # few distinct log-probabilities: ties at the cut
             rec.count("cases:tied_log_probabilities")
+        target = mc.Interruptible(target)     # (lets the harness interrupt a run from inside the posterior, see below)
         T = float(rng.choice([1.0, 1.0, 2.5]))
         bounds = None
         if kind in ("pca", "hmc", "ensemble") and rng.random() < 0.4:
@@ -168,6 +169,24 @@ def run_job(job, rec):
         if c < 2:
             rec.sample({**ctx, "steps": steps, "chain_length": int(ch.chain_length)})
         check_readouts(rec, ch, kind, rng, ctx, 6)
+
+        # an interruption raised from inside the posterior (Ctrl-C) in the middle of a run; the sampler is kept and read out: rows stay aligned
+        if rng.random() < 0.3:
+            target.arm(int(rng.integers(1, 40)))
+            try:
+                ch.advance(5 if kind == "ensemble" else 30)
+            except mc.InjectedInterrupt:
+                rec.count("cases:read_out_after_interruption")
+            except Exception as exc:  # noqa: BLE001
+                rec.violation("raised", f"{kind}: advance raised {exc!r}", ctx)
+                continue
+            finally:
+                target.disarm()
+            if not (kind == "ensemble" and getattr(ch, "sample", None) is None):
+                r_ = guarded(check_readouts, rec, ch, kind, rng, {**ctx, "after": "interrupted advance"}, 2)
+                if isinstance(r_, Raised):
+                    rec.violation("raised", f"{kind}: read-outs after an interrupted advance raised {r_!r}", ctx)
+                    continue
 
         # histories: further steps, then a replacement of the last point, then read out again
         if kind != "ensemble":
